@@ -696,6 +696,8 @@ struct RealInput {
   std::string envBody;
   bool haveEnv = false;
   std::string envName;                  // "" = default name (hfEnvVarArgs), else checkEnvVarArgs(name)
+  bool prepared = false;                // run time only (threads): the caller has set the named environment variable already,
+                                        // runReal() must not touch the process environment
   // groups: partition of the arguments over member handlers; empty = plain handler
   std::vector<int> groupOf;             // per argument: member index
   int groupCount = 0;
